@@ -32,6 +32,29 @@ NOTES = {
              as_delivered="caught by SENDER and CONFIRM-QUORUM (member must be re-established after the window) under C01/C04/C05, but the C18 check stayed silent", strengthened="FOLLOWER-LOOKUP (C18): r.followers[k] is fetched for use only while k is a member in the same critical section"),
  "C19": dict(change="Compact assigns entry.Offset only after the rename: records on disk carry stale offsets", needs="append, Compact with surviving entries, restart, Truncate of a surviving entry, append, restart",
              as_delivered="MISSED: the Offset-before-write obligation existed for AppendEntries only", strengthened="RECORD-OFFSET (C12, C19): every encodeLogEntry of a kept entry is dominated by entry.Offset := file.Seek(0, SeekCurrent) on the same file"),
+ "C03": dict(change="becomeFollower fails pending futures and replaces the operation manager only 'if wasLeader' (state read into a local before the store to r.state)", needs="leader stopped with pending futures, restarted as follower (Stop leaves the tables), higher-term RPC, new leader commits another client's entry at the same index",
+             as_delivered="MISSED, and for a bad reason: LEADER-EXIT-RESET discharged the obligation because the interpreter applied the condition 'wasLeader' (computed from a load made BEFORE the store state := Follower) to the current value of r.state — an unsoundness of the engine, not a gap of the rule",
+             strengthened="engine: a condition filters an atom only if every memory read it is computed from is still current at the branch (fresh()/unchangedBetween; later extended to stale parameter and closure bindings, found by the engine unit tests written because of this seed); with that LEADER-EXIT-RESET reports all 7 contexts"),
+ "C07": dict(change="Compact replaces the kept boundary entry by a fresh placeholder without its Term", needs="log entirely compacted (snapshot at LastIndex) on a voter, then a vote request from a candidate with a shorter/older log",
+             as_delivered="caught by COMPACT-KEEP (placeholder must be the kept entry), but that rule was wired to C11/C12 only — the C07 check stayed silent", strengthened="COMPACT-KEEP added to C07's rules (the vote restriction compares against LastTerm(), which compaction must preserve)"),
+ "C16": dict(change="stickiness gate in RequestVote applies to real votes only ('!request.Prevote && (…)')", needs="one-directional partition or the window after a heal; idle cluster (equal logs); the cut-off node wins the prevote, bumps its term, deposes the leader on the next heartbeat",
+             as_delivered="caught by the C16 check (STICKY: VoteGranted := true outside the gate for prevote:T)", strengthened="none needed"),
+ "C17": dict(change="stickiness gate in RequestVote applies to prevotes only ('request.Prevote && (…)')", needs="partition that heals for one follower exactly between its prevote answer and the arrival of the real vote; lease read on the old leader inside the lease window",
+             as_delivered="caught by the C17 check (STICKY: term/vote/state writes of a real vote outside the gate, 9 contexts)", strengthened="none needed"),
+ "C01-2": dict(change="sendAppendEntries caps a request at 1024 entries while LeaderCommit stays the full commit index", needs=">1024 entries before a divergence point, follower with a stale uncommitted suffix beyond the batch, second leader change; the follower clamps commitIndex to the end of its OWN log",
+             as_delivered="reported, but only by accident: SENDER/SNAP-FALLBACK could not prove index < NextIndex() through numeric.Min (an imprecision, with a message beside the point); the rule that owns the contract (COMMIT-FOLLOWER's SEND-TO-END companion) accepted any mention of NextIndex() in a loop condition",
+             strengthened="SEND-TO-END is now decided on the loop's exit state (index not below NextIndex() when request.Entries is filled, unless the follower bounds by prev+len(entries)); engine: phi transfer (loop variable initial value / increment) and Min/Max implications, so the capped-but-safe variant and the bound-in-a-local variant stay silent"),
+ "C02-2": dict(change="same edit as the round-1 C08 seed (step-down moved above the stale-reply check in sendRequestVote), found independently", needs="as C08", as_delivered="caught by the C02 check (TERM-VOTE/TERM-MONO)", strengthened="none needed"),
+ "C05-2": dict(change="readOnlyLoop releases verified reads against commitIndex instead of lastApplied", needs="new leader whose apply loop is behind an entry its predecessor acknowledged (slow Apply), verified read in that window",
+             as_delivered="caught by the C05 check (READ-SERVE RS1: the apply index handed to the selection must be r.lastApplied)", strengthened="none needed"),
+ "C09-2": dict(change="same edit as the round-1 C09/C10 seeds (snapshot labelled with r.configuration)", needs="as C09", as_delivered="caught by the C09 check (SNAP-LABEL, wired to C09 after round 1)", strengthened="none needed"),
+ "C10-2": dict(change="sendInstallSnapshot labels the request with r.lastIncludedIndex/Term instead of the metadata of the file being sent", needs="transfer started between takeSnapshot's Close (new file visible) and its re-locking (boundary moved); single-chunk snapshot; leader change before the re-send",
+             as_delivered="MISSED: no rule tied the label of an outgoing request to the file whose bytes it carries", strengthened="new rule SEND-LABEL (C10, C11): LastIncludedIndex/Term/Configuration of the request = Metadata() of the reader the chunk is read from. The agent's side remark about the ordering of snapshot directories led to D23 (genuine, known finding)"),
+ "C12-2": dict(change="Replay's byte counter moved beneath the bufio.Reader (counts read-ahead, not decoded bytes)", needs="crash inside an append (torn tail), reopen, further append, reopen",
+             as_delivered="MISSED: REPLAY-TAIL accepted any non-constant offset as 'tracked'", strengthened="REPLAY-TAIL position-source clause: a position used for Truncate/Seek must not be read from beneath the decoder's read-ahead buffer (counter field or file offset) unless corrected by Buffered()"),
+ "C13-2": dict(change="same edit as the round-1 C13 seed (MkdirTemp prefix 'tmp-snapshot-')", needs="as C13", as_delivered="caught by the C13 check (SNAP-PICK)", strengthened="none needed"),
+ "C15-2": dict(change="InstallSnapshot (matching-entry branch): boundary stores moved after the wait for lastApplied, re-check changed to >=", needs="follower whose log holds the snapshot's last entry but lastApplied below it; the re-sent tail chunk restarts the transfer for ever",
+             as_delivered="caught by IS-HANDLER (IS-COMPLETE: the handler can park/return after publishing the snapshot without having moved the boundary), but that rule was wired to C10/C11 only — the C15 check stayed silent", strengthened="IS-HANDLER added to C15's rules (known finding D10 extended to C15)"),
  "C20": dict(change="shared (*LogEntry).toProto helper makes the wire converter read entry.Offset (unlocked) while Compact rewrites it", needs="AppendEntries request in flight (converted with the mutex released) while the node compacts its log; visible only under -race",
              as_delivered="MISSED: LOCKSET guards node state, not the fields of shared log entries (and the tables corpus had filed 'send Offset both ways' as benign)", strengthened="OFFSET-OWNER (C20): LogEntry.Offset may be accessed only by code that runs inside the bundled log; the benign case was reclassified as a must-fire mutant"),
 }
@@ -54,9 +77,10 @@ for d in sorted(glob.glob(os.path.join(ROOT, "seeded", "C*"))):
             if m and cur:
                 caught[cur]["rules"].append(m.group(1) + ": " + m.group(2))
     n = NOTES[pid]
+    prop = pid.split("-")[0]
     meta = {
-        "property_broken": pid,
-        "origin": "written by a fresh sub-agent that was given ONLY the text of the property and a scratch worktree of /repo (prompt: seeded/_prompts/%s.txt); nothing from /verif" % pid,
+        "property_broken": prop,
+        "origin": "written by a fresh sub-agent that was given ONLY the text of the property and a scratch worktree of /repo (prompt: seeded/_prompts/%s.txt); nothing from /verif" % (("round2/" + prop) if pid.endswith("-2") else prop),
         "change": n["change"],
         "needs_in_order_to_manifest": n["needs"],
         "confirmed_by_me": confirmed,
